@@ -8,6 +8,7 @@ exactly; {"f":"nan"|"inf"|"-inf"}; {"s":text}; null = any other object.
 -/
 import Lean.Data.Json
 import Jap.Core.Typing
+import Jap.Core.TypingReg
 import Jap.Core.Scalar
 import Jap.Gen.Registered
 
@@ -207,6 +208,67 @@ def step (j : Json) : Json :=
   | "resolve" =>
     let q := Jap.Scalar.jrun 0 (Jap.Scalar.classes (getStr j "s").toList)
     Json.mkObj [("l", intToJson (Jap.Scalar.tagL q : Nat)), ("d", intToJson (Jap.Scalar.tagD q : Nat))]
+  | "sortkey" =>
+    let rsj := getArr j "rs"
+    let rs := rsj.filterMap restrOfJson
+    if rs.length ≠ rsj.length then Json.mkObj [("bad", "restrictions")] else
+    Json.mkObj [("r", .arr ((sortR rs).map fun r => Json.arr #[.str r.1.symbol, xnumToJson r.2]).toArray)]
+  | "create_hist" =>
+    -- a history of `restricted_number_type` calls on a registry that starts with the given bound names
+    let names0 := (getArr j "names").filterMap fun x => match x with | .str s => some s | _ => none
+    let stepOne (acc : TReg × List Json) (c : Json) : TReg × List Json :=
+      let rsj := getArr c "rs"
+      let rs := rsj.filterMap restrOfJson
+      if rs.length ≠ rsj.length then (acc.1, acc.2 ++ [Json.mkObj [("bad", "restrictions")]]) else
+      match createNum acc.1 (getStr c "name") (baseOf (getStr c "base")) rs (joinOf (getStr c "join")) with
+      | .ok (r', cls) => (r', acc.2 ++ [Json.mkObj [("id", intToJson (cls.id : Nat)), ("name", .str cls.name)]])
+      | .error e => (acc.1, acc.2 ++ [errToJson e])
+    Json.mkObj [("r", .arr (((getArr j "calls").foldl stepOne (⟨[], names0, 0⟩, [])).2).toArray)]
+  | "str_hist" =>
+    let names0 := (getArr j "names").filterMap fun x => match x with | .str s => some s | _ => none
+    let stepOne (acc : SReg × List Json) (c : Json) : SReg × List Json :=
+      let fl := match intOfJson (c.getObjValD "flags") with | some n => n.toNat | none => 0
+      match createStr acc.1 (getStr c "name") (getStr c "pattern") fl with
+      | .ok (r', cls) => (r', acc.2 ++ [Json.mkObj [("id", intToJson (cls.id : Nat)), ("flags", intToJson (cls.flags : Nat))]])
+      | .error e => (acc.1, acc.2 ++ [errToJson e])
+    Json.mkObj [("r", .arr (((getArr j "calls").foldl stepOne (⟨[], names0, 0⟩, [])).2).toArray)]
+  | "autoname" =>
+    let rs : List (Op × Int) := (getArr j "rs").filterMap fun x => match x with
+      | .arr #[.str sym, r] => match Op.ofSymbol sym, intOfJson r with
+        | some o, some i => some (o, i)
+        | _, _ => none
+      | _ => none
+    Json.mkObj [("name", .str (autoName (baseOf (getStr j "base")) rs (joinOf (getStr j "join")))),
+                ("expr", .str (exprText rs (joinOf (getStr j "join"))))]
+  | "reg_hist" =>
+    -- a history of register_type / register_type_on_first_use / get_registered_type calls; classes are 0..n-1
+    let n := match intOfJson (j.getObjValD "n") with | some k => k.toNat | none => 0
+    let natOf (c : Json) (k : String) : Nat := match intOfJson (c.getObjValD k) with | some i => i.toNat | none => 0
+    let boolOf (c : Json) (k : String) : Bool := match c.getObjVal? k with | .ok (.bool b) => b | _ => false
+    let ukeyOf (c : Json) : Option (Nat × Bool) := match c.getObjVal? "ukey" with
+      | .ok (.arr #[k, .bool t]) => (intOfJson k).map fun i => (i.toNat, t)
+      | _ => none
+    let hOf (c : Json) : HandlerId := ⟨natOf c "cls", natOf c "ser", natOf c "deser", natOf c "exc", natOf c "check"⟩
+    let snap (st : HReg) : Json :=
+      Json.mkObj [("h", .arr ((List.range n).map fun t => match st.handlerOf t with
+          | some h => Json.arr #[intToJson (h.ser : Nat), intToJson (h.deser : Nat), intToJson (h.check : Nat)]
+          | none => Json.null).toArray),
+        ("p", .arr (((List.range n).filter fun t => (assocGet st.pending t).isSome).map fun t => intToJson (t : Nat)).toArray),
+        ("u", .arr (st.ukeys.map fun p => Json.arr #[intToJson (p.1 : Nat), intToJson (p.2 : Nat)]).toArray)]
+    let stepOne (acc : HReg × List Json) (c : Json) : HReg × List Json :=
+      match getStr c "k" with
+      | "reg" =>
+        let r := registerType acc.1 (hOf c) (boolOf c "fail") (ukeyOf c)
+        (r.1, acc.2 ++ [Json.mkObj [("res", if r.2.isSome then "ValueError" else "ok"), ("st", snap r.1)]])
+      | "pend" =>
+        let st' : HReg := { acc.1 with pending := assocSet acc.1.pending (natOf c "cls") ⟨hOf c, boolOf c "fail", ukeyOf c⟩ }
+        (st', acc.2 ++ [Json.mkObj [("res", "ok"), ("st", snap st')]])
+      | _ =>
+        let g := getRegistered acc.1 (natOf c "cls")
+        (g.1, acc.2 ++ [Json.mkObj [("res", match g.2 with
+          | some h => Json.arr #[intToJson (h.ser : Nat), intToJson (h.deser : Nat), intToJson (h.check : Nat)]
+          | none => Json.null), ("st", snap g.1)]])
+    Json.mkObj [("r", .arr (((getArr j "calls").foldl stepOne (⟨[], [], [], none⟩, [])).2).toArray)]
   | "secret" => Json.mkObj [("s", .str (secretSer (getStr j "s")))]
   | "decimal" =>
     match SerKind.ofName (getStr j "ser"), xnumOfJson (j.getObjValD "d") with
